@@ -191,6 +191,9 @@ func (w *World) GenBlock(r *gen.R, prev time.Time, height int64, maxTxs int) (Bl
 	}
 	var ds []TxDesc
 	n := r.Intn(maxTxs + 1)
+	if height < FirstModernHeight {
+		n = 0 // block 1 runs under pre-feature rules (see ModernGlobals)
+	}
 	for i := 0; i < n; i++ {
 		d := w.GenTx(r)
 		if r.Chance(1, 15) && len(ds) > 0 { // resubmit an earlier tx of this block (duplicate)
